@@ -178,7 +178,7 @@ class Explorer:
     t0 = time.time()
     r = guarded_check(s, self.timeout_ms)
     if r == 'unknown' and self.second_opinion:
-      r2, _ = second_opinion(s, timeout_s=4)
+      r2, _ = second_opinion(s, timeout_s=12)
       if r2 in ('sat', 'unsat'):
         r = r2
     STATS['solver_s'] += time.time() - t0
